@@ -50,6 +50,21 @@ SlotTags(e) ==
     \cup (IF e.dec2 # e.dec /\ (IF e.fat32 THEN d.chi < 4096 ELSE d.chi = 0)
           THEN V("DirEntry", "encode-then-decode does not return the same entry") ELSE {})
 
+\* ---- entries created in slots another system left behind (deleted entries, an end marker with unclean bytes behind it):
+\* the whole 32 bytes on the medium are the new entry's - name, attribute, no size, and in the fields the library does not
+\* keep (NT case flags, creation-time tenths, last-access date) values the FAT specification allows, never what lay there
+NewSlotTags(e) ==
+  IF ~e.ran THEN V("NewEntry", "creating entries in a directory with reused slots failed or panicked")
+  ELSE IF ~e.found THEN V("NewEntry", "a created entry is not in the directory block under its name")
+  ELSE LET s == e.new IN
+       (IF SlotName(s) # e.name \/ ~(SlotAttr(s) \in (IF e.kind = "dir" THEN {16} ELSE {0, 32})) THEN V("NewEntry", "name / attribute byte of a created entry") ELSE {})
+  \cup (IF SlotSizeLo(s) # 0 \/ SlotSizeHi(s) # 0 THEN V("NewEntry", "a created entry has a size") ELSE {})
+  \cup (IF ~(s[13] \in {0, 8, 16, 24}) THEN V("NewEntry", "byte 12 (NT case flags) of a created entry holds what lay in the slot before") ELSE {})
+  \cup (IF s[14] > 199 THEN V("NewEntry", "byte 13 (creation time, tenths) of a created entry is not in 0..199") ELSE {})
+  \cup (IF ~(Le16(s, 18) = 0 \/ RepDate(Le16(s, 18))) THEN V("NewEntry", "bytes 18..19 (last access date) of a created entry are not a date") ELSE {})
+  \cup (IF ~e.fat32 /\ SlotClusHi(s) # 0 THEN V("NewEntry", "bytes 20..21 of a created FAT16 entry are not zero") ELSE {})
+  \cup (IF ~(RepDate(SlotCrtDate(s)) /\ RepTime(SlotCrtTime(s)) /\ RepDate(SlotWrtDate(s)) /\ RepTime(SlotWrtTime(s))) THEN V("NewEntry", "creation / modification time of a created entry") ELSE {})
+
 \* ---- 8.3 names
 SfnTags(e) ==
   LET cs == e.s IN
@@ -63,6 +78,7 @@ SfnTags(e) ==
 Tags(e) == CASE e.ev = "DateTime" -> DateTimeTags(e)
              [] e.ev = "Cal" -> CalTags(e)
              [] e.ev = "Slot" -> SlotTags(e)
+             [] e.ev = "NewSlot" -> NewSlotTags(e)
              [] e.ev = "Sfn" -> SfnTags(e)
              [] OTHER -> {}
 Next == /\ l <= Len(Rec)
